@@ -4,7 +4,6 @@ package bcastx
 import (
 	"context"
 	"encoding/json"
-	"errors"
 	"fmt"
 	"strings"
 	"sync"
@@ -25,6 +24,7 @@ type Op struct {
 	Ge      int    `json:"ge,omitempty"`      // wait: predicate state >= Ge
 	ErrAt   int    `json:"errat,omitempty"`   // wait: predicate returns an error when state == ErrAt (0 = never)
 	ErrDone bool   `json:"errdone,omitempty"` // wait: the failing predicate also reports done=true
+	ErrKind int    `json:"errkind,omitempty"` // wait: 0 private error, 1 context.DeadlineExceeded, 2 an error wrapping context.Canceled, 3 context.Canceled itself
 	Via     string `json:"via,omitempty"`     // update: hold | try | async
 	Peek    string `json:"peek,omitempty"`    // update: "" | before | after (take a wait channel inside the same section)
 	Pre     bool   `json:"pre,omitempty"`     // wait: context already cancelled
@@ -46,9 +46,10 @@ func genCase(t *rapid.T) Case {
 		switch op.K {
 		case "wait":
 			op.Ge = rapid.IntRange(0, 5).Draw(t, "ge")
-			if rapid.IntRange(0, 4).Draw(t, "haserr") == 0 {
+			if rapid.IntRange(0, 2).Draw(t, "haserr") == 0 {
 				op.ErrAt = rapid.IntRange(0, 4).Draw(t, "errat")
 				op.ErrDone = rapid.Bool().Draw(t, "errdone")
+				op.ErrKind = rapid.SampledFrom([]int{0, 0, 0, 1, 2, 3}).Draw(t, "errkind")
 				if op.ErrAt == 0 {
 					op.ErrAt = -1 // fails at the initial state 0
 				}
@@ -139,7 +140,7 @@ func body(c *sched.Ctl, cs Case, v *ev.Verdict) {
 	var waiters []*waiter
 	var chans []handed
 	updLabels := map[string]bool{}
-	window, cancelRace, cleanup := false, false, false
+	window, cancelRace, cleanup, errDuringCancel := false, false, false, false
 
 	c.OnGrant(func(tk *sched.Ticket) {
 		if tk.Point == "broadcast.lock" && updLabels[tk.Label] {
@@ -151,7 +152,17 @@ func body(c *sched.Ctl, cs Case, v *ev.Verdict) {
 		}
 	})
 
-	errFor := func(id int) error { return fmt.Errorf("pred-error-%d", id) }
+	errFor := func(id, kind int) error {
+		switch kind {
+		case 1:
+			return context.DeadlineExceeded
+		case 2:
+			return fmt.Errorf("pred-error-%d: %w", id, context.Canceled)
+		case 3:
+			return context.Canceled
+		}
+		return fmt.Errorf("pred-error-%d", id)
+	}
 
 	quiescent := func(where string) {
 		hm.Lock()
@@ -210,7 +221,7 @@ func body(c *sched.Ctl, cs Case, v *ev.Verdict) {
 					w.evals++
 					w.lastTrue, w.lastErr = false, nil
 					if w.op.ErrAt != 0 && state == errState(w.op.ErrAt) {
-						w.lastErr = errFor(w.id)
+						w.lastErr = errFor(w.id, w.op.ErrKind)
 						return w.op.ErrDone, w.lastErr
 					}
 					w.lastTrue = state >= w.op.Ge
@@ -226,7 +237,15 @@ func body(c *sched.Ctl, cs Case, v *ev.Verdict) {
 					} else if !w.lastTrue {
 						fail("broadcast:nil-without-true", "Wait #%d returned nil but its predicate's last evaluation did not return true (evaluations=%d)", w.id, w.evals)
 					}
-				case errors.Is(err, context.Canceled) && err == context.Canceled:
+				case w.lastErr != nil:
+					// the predicate's last evaluation failed: that error, and nothing else, is the result
+					if err != w.lastErr {
+						fail("broadcast:error-changed", "Wait #%d returned %v, its predicate's last evaluation returned the error %v (context cancelled: %v)", w.id, err, w.lastErr, w.cancelled)
+					}
+					if w.cancelled && !cleanup {
+						errDuringCancel = true
+					}
+				case err == context.Canceled:
 					if !w.cancelled {
 						fail("broadcast:spurious-cancel", "Wait #%d returned context.Canceled although its context was never cancelled", w.id)
 					}
@@ -234,9 +253,7 @@ func body(c *sched.Ctl, cs Case, v *ev.Verdict) {
 						cancelRace = true
 					}
 				default:
-					if w.lastErr == nil || err != w.lastErr {
-						fail("broadcast:error-changed", "Wait #%d returned %v, the predicate's error was %v", w.id, err, w.lastErr)
-					}
+					fail("broadcast:error-changed", "Wait #%d returned %v, but its predicate's last evaluation returned no error", w.id, err)
 				}
 			})
 		case "update", "spurious":
@@ -367,6 +384,9 @@ func body(c *sched.Ctl, cs Case, v *ev.Verdict) {
 	}
 	if cancelRace {
 		v.Class("cancel-after-predicate-evaluated")
+	}
+	if errDuringCancel {
+		v.Class("predicate-failed-while-context-cancelled")
 	}
 }
 
